@@ -20,3 +20,19 @@ package coreutils
 //@ extern (*types.V2Transaction).DeepCopy
 //@   assigns nothing
 //@   ensures result.ID() == txn.ID()
+//
+// consensus: validators and the pool mid-state (uninterpreted; A1)
+//@ extern consensus.ValidateTransaction
+//@   assigns nothing
+//@ extern consensus.ValidateV2Transaction
+//@   assigns nothing
+//@ extern consensus.NewMidState
+//@   assigns nothing
+//@   ensures result != nil
+//@ extern (*consensus.MidState).ApplyTransaction
+//@   assigns heap:consensus.MidState
+//@ extern (*consensus.MidState).ApplyV2Transaction
+//@   assigns heap:consensus.MidState
+//@ extern (consensus.State).TransactionWeight pure
+//@ extern (consensus.State).V2TransactionWeight pure
+//@ extern (consensus.State).MaxBlockWeight pure
